@@ -46,6 +46,16 @@ def parse_docs_tables():
     if len(tables) < 2:
         raise HarnessError('compatibility tables not found in docs/readcode.rst')
     types, nd = tables[0], tables[1]
+
+    def canon(h):
+        # 'Matlab/Octave', 'NumPy', 'julia' ... -> the column names used below
+        words = re.split(r'[^a-z0-9]+', h.lower())
+        for v in sorted(set(COL.values())):
+            if h.lower() == v.lower() or v.lower() in words or h.lower().startswith(v.lower()):
+                return v
+        return h
+    for t in (types, nd):
+        t['header'] = [canon(h) for h in t['header']]
     # a cell offers the language iff it carries the mark 'X' (X, X*, X**, X(1)); empty, '-', 'no' ... do not
     tt = {nt: {h: 'X' in c.upper() for h, c in zip(types['header'], row)} for nt, row in types['rows'].items()}
     ndt = {k: {h: 'X' in c.upper() for h, c in zip(nd['header'], row)} for k, row in nd['rows'].items()}
@@ -101,12 +111,12 @@ def toplevel_lines(code):
 def snippet_result_var(code, lang, default='a'):
     """the variable a snippet binds the array to: read from the text, not assumed"""
     if lang == 'python':
-        m = re.search(r'(\w+)\s*=\s*array\.array', code)
+        m = re.search(r'(\w+)\s*=\s*(?:array\.)?array\(', code)
         return m.group(1) if m else default
     lines = toplevel_lines(code)
     for l in reversed(lines):
-        m = re.match(r'\s*(\w+)\s*(?:<-|:=|=)(?!=)', l)
-        if m:
+        m = re.match(r'\s*(\w+)\s*(?:<-|:=|=)(?!=)\s*(.*)', l)
+        if m and not re.match(r'(?:f|m)?close\s*[(\[]|free_lun|Close\s*\[', m.group(2), re.I):   # status = fclose(fid)
             return m.group(1)
     return default
 
@@ -349,7 +359,10 @@ class ArrayReadCode(Engine):
                 # the separated parts is its own business (they are checked when present)
                 inter = np.empty(flat.size * 2, dtype=np.float64)
                 inter[0::2], inter[1::2] = flat.real, flat.imag
-                ok = widen_equal(np.array(list(got), dtype=np.float64), inter)[0]
+                gl = list(got)
+                if gl and all(isinstance(x, complex) for x in gl):       # the values as Python complex numbers
+                    gl = [p for x in gl for p in (x.real, x.imag)]
+                ok = widen_equal(np.array(gl, dtype=np.float64), inter)[0]
                 for nm, part in (('real', flat.real), ('imag', flat.imag)):
                     if nm in ns and ok:
                         ok = widen_equal(np.array(list(ns[nm]), dtype=np.float64), part)[0]
@@ -365,7 +378,13 @@ class ArrayReadCode(Engine):
                 raise Viol('readcode.l1_value', 'python:values_differ', '')
         else:
             arr = ns['__r'] if lang == 'darr' else np.array(got, copy=True)
-            ok, why = D.arr_equal(arr, model)
+            ref = model
+            if isinstance(arr, np.ndarray) and arr.dtype != model.dtype and \
+                    arr.dtype.newbyteorder('=') == model.dtype.newbyteorder('='):
+                # "yields exactly the stored values": the byte order of the in-memory result is the reader's choice
+                arr, ref = arr.astype(arr.dtype.newbyteorder('=')), model.astype(model.dtype.newbyteorder('='))
+                st['probes']['l1_result_in_other_byte_order'] = 1
+            ok, why = D.arr_equal(arr, ref)
             if not ok:
                 raise Viol('readcode.l1_value', f'{lang}:{why.split(" ")[0]}', why)
         if lang == 'numpymemmap':
@@ -654,13 +673,25 @@ class RaggedReadCode(Engine):
         n = len(L)
         if lang == 'numpymemmap' and (wantv not in code or wanti not in code):
             raise Viol('readcode.path', f'{lang}:requested_path_not_used', f'{wantv!r} / {wanti!r}')
-        comments = '\n'.join(l for l in code.splitlines() if l.lstrip().startswith('#'))
+        # the example statement = the last top-level *assignment* (a trailing print(...) is not it); what it claims to
+        # bind is read from the comment lines directly above it only (other comments may mention "first", "k=0" ...)
+        cl = code.splitlines()
+        tl = [l for l in toplevel_lines(code) if not l.lstrip().startswith('#')]
+        asg = [l for l in tl if re.match(r'\s*\w+\s*=(?!=)', l) and not l.startswith((' ', '\t'))]
+        exline = asg[-1] if asg else (tl[-1] if tl else '')
+        cut = max([i for i, l in enumerate(cl) if l == exline] or [len(cl)])
+        above = []
+        j = cut - 1
+        while j >= 0 and (cl[j].lstrip().startswith('#') or not cl[j].strip()):
+            if cl[j].strip():
+                above.append(cl[j])
+            j -= 1
+        comments = '\n'.join(above)
         m = re.search(r'\bk\s*=\s*(\d+)', comments)
         pm = re.search(r'\b(first|second|third)\b', comments)
-        fm = re.search(r'(?m)^def (\w+)\(\s*\w+\s*\):', code)
+        fm = re.search(r'(?m)^def (\w+)\(\s*\w+[^)]*\)\s*(?:->[^:]+)?:', code)
         fname = fm.group(1) if fm else 'getsubarray'          # the accessor, whatever it is called
-        lines = [l for l in code.splitlines() if l.strip() and not l.lstrip().startswith('#')]
-        vm = re.match(r'\s*(\w+)\s*=', lines[-1]) if lines else None
+        vm = re.match(r'\s*(\w+)\s*=', exline)
         exvar = vm.group(1) if vm else 'sa'                    # the variable the example statement binds
         am = re.search(r'(?m)^(\w+)\s*=\s*(?:\w+\.)*RaggedArray\s*\(', code)
         avar = am.group(1) if am else 'a'
@@ -679,10 +710,7 @@ class RaggedReadCode(Engine):
         if ns is not None:
             ns.clear()
         try:
-            # the snippet without its example statement: everything before the last statement
-            cl = code.splitlines()
-            tl = [l for l in toplevel_lines(code) if not l.lstrip().startswith('#')]
-            cut = max(i for i, l in enumerate(cl) if l == tl[-1]) if tl else len(cl)
+            # the snippet without its example statement (and whatever follows it)
             body = '\n'.join(cl[:cut]) + '\n'
             ns2 = exec_python_snippet(body + post, cwd, placeholder_target=path if lang == 'darr' else None)
         except Exception as e:
